@@ -360,6 +360,9 @@ func nativeGuard(p *gen.Prog) *core.FuncAction {
 // nativeAction compiles a program to a Go closure with the same meaning as Sheens/ES.lean Prog.run.
 func nativeAction(p *gen.Prog) *core.FuncAction {
 	return &core.FuncAction{F: func(ctx context.Context, given match.Bindings, props core.StepProps) (*core.Execution, error) {
+		if p.Ret == "nilexe" {
+			return nil, nil // neither an execution nor an error
+		}
 		work := given.Copy()
 		mutated := false
 		exe := core.NewExecution(nil)
